@@ -1,7 +1,160 @@
+import ElvisVerif.Model.IpTable
 import Driver.Common
-/-! Line-protocol handlers for C09 (sub-commands `c09` / `c09-*`). -/
+/-! Line-protocol handlers for C09 (sub-commands `c09` / `c09-*`): subnet arithmetic, CIDR text and
+the IP table.  Addresses and masks travel as decimal `u32`, strings as hex of their bytes. -/
 namespace Driver.C09
+open Elvis.Subnet Elvis.IpTable
 
-def dispatch (_sub : String) (_i _o : IO.FS.Stream) : Option (IO Unit) := none
+def addr (s : String) : Option Addr := do
+  let n ← s.toNat?
+  if n < 4294967296 then some (BitVec.ofNat 32 n) else none
+
+def str (s : String) : Option Str := (Driver.parseHex s).map fun bs => bs.map (·.toNat)
+
+def strHex (s : Str) : String := Driver.toHex (s.map UInt8.ofNat)
+
+def netTok (s : String) : Option Net :=
+  match s.splitOn "/" with
+  | [a, l] => do pure (Net.new (← addr a) (Mask.fromBitcount (← l.toNat?)))
+  | _ => none
+
+def showOpt : Option Nat → String
+  | none => "-"
+  | some v => toString v
+
+def showNet (n : Net) : String := s!"{n.id.toNat}/{n.mask.countOnes}"
+
+def dump (t : Table Nat) : String :=
+  if t.isEmpty then "-" else ",".intercalate (t.map fun (k, v) => s!"{showNet k}={v}")
+
+def showCidr (s : Str) : String :=
+  match cidrToIp s, Net.fromCidr s with
+  | .ok (ip, m), .ok n => s!"ok {ip.toNat} {m.bits.toNat} {showNet n}"
+  | .error .ipv4, _ => "err ipv4"
+  | .error .mask, _ => "err mask"
+  | _, _ => "err inconsistent"
+
+def bit (b : Bool) : Char := if b then '1' else '0'
+
+def showOverlaps (a b : Net) : String :=
+  match a.overlaps b with
+  | .ok r => (bit r).toString
+  | .error _ => "P"
+
+def step (t : Table Nat) (ws : List String) : Table Nat × String :=
+  let bad := (t, "bad-op")
+  match ws with
+  | ["case", id] => ([], s!"case {id}")
+  | ["add", ip, l, v] =>
+    match addr ip, l.toNat?, v.toNat? with
+    | some ip, some l, some v =>
+      let (old, t') := add t (Net.new ip (Mask.fromBitcount l)) v
+      (t', s!"ok old={showOpt old} iter={dump t'}")
+    | _, _, _ => bad
+  | ["add1", ip, v] =>
+    match addr ip, v.toNat? with
+    | some ip, some v =>
+      let (old, t') := add t (Net.new1 ip) v
+      (t', s!"ok old={showOpt old} iter={dump t'}")
+    | _, _ => bad
+  | ["remove", ip, l] =>
+    match addr ip, l.toNat? with
+    | some ip, some l =>
+      let (old, t') := remove t (Net.new ip (Mask.fromBitcount l))
+      (t', s!"ok old={showOpt old} iter={dump t'}")
+    | _, _ => bad
+  | ["add_direct", ip, v] =>
+    match addr ip, v.toNat? with
+    | some ip, some v =>
+      match Elvis.IpTable.step t (.addDirect ip v) with
+      | .ok t' => (t', s!"ok iter={dump t'}")
+      | .error e => (t, s!"err {e} iter={dump t}")
+    | _, _ => bad
+  | ["remove_direct", ip] =>
+    match addr ip with
+    | some ip =>
+      let old := find (Net.new ip (Mask.fromBitcount 32)) t
+      match Elvis.IpTable.step t (.removeDirect ip) with
+      | .ok t' => (t', s!"ok old={showOpt old} iter={dump t'}")
+      | .error e => (t, s!"err {e} iter={dump t}")
+    | none => bad
+  | ["add_cidr", h, v] =>
+    match str h, v.toNat? with
+    | some s, some v =>
+      match Elvis.IpTable.step t (.addCidr s v) with
+      | .ok t' => (t', s!"ok iter={dump t'}")
+      | .error e => (t, s!"err {e} iter={dump t}")
+    | _, _ => bad
+  | ["remove_cidr", h] =>
+    match str h with
+    | some s =>
+      match Elvis.IpTable.step t (.removeCidr s) with
+      | .ok t' => (t', s!"ok iter={dump t'}")
+      | .error e => (t, s!"err {e} iter={dump t}")
+    | none => bad
+  | ["gateway", v] =>
+    match v.toNat? with
+    | some v =>
+      match defaultGateway v with
+      | .ok t' => (t', s!"ok iter={dump t'}")
+      | .error e => (t, s!"err {e} iter={dump t}")
+    | none => bad
+  | "gets" :: as =>
+    match as.mapM addr with
+    | some as => (t, " ".intercalate (as.map fun a => showOpt (getRecipient t a)))
+    | none => bad
+  | ["net", ip, l] =>
+    match addr ip, l.toNat? with
+    | some ip, some l =>
+      let n := Net.newShort ip l
+      let bc := match n.broadcast with
+        | .ok b => toString b.toNat
+        | .error e => e
+      (t, s!"id={n.id.toNat} len={n.mask.countOnes} bits={n.mask.toU32.toNat} bc={bc} ips={n.mask.ipsInNet} usable={n.mask.usableIps}")
+    | _, _ => bad
+  | "contains" :: n :: as =>
+    match netTok n, as.mapM addr with
+    | some n, some as => (t, String.ofList (as.map fun a => bit (n.contains a)))
+    | _, _ => bad
+  | "ovl" :: ns =>
+    match ns.mapM netTok with
+    | some ns => (t, " ".intercalate (ns.map fun a => String.join (ns.map fun b => showOverlaps a b)))
+    | none => bad
+  | ["range", s, e] =>
+    match addr s, addr e with
+    | some s, some e =>
+      (t, match Net.tryFromRange s e with
+        | .ok (.ok n) => s!"ok {showNet n}"
+        | .ok (.error .empty) => "err empty"
+        | .ok (.error .size) => "err size"
+        | .ok (.error .start) => "err start"
+        | .error p => s!"err {p}")
+    | _, _ => bad
+  | ["mask", m] =>
+    match addr m with
+    | some m =>
+      (t, match Mask.tryFrom m with
+        | .ok r => s!"ok {r.countOnes} {r.bits.toNat}"
+        | .error x => s!"err {x.toNat}")
+    | none => bad
+  | ["bitcount", n] =>
+    match n.toNat? with
+    | some n => let m := Mask.fromBitcount n; (t, s!"{m.bits.toNat} {m.countOnes}")
+    | none => bad
+  | ["cidr", h] =>
+    match str h with
+    | some s => (t, showCidr s)
+    | none => bad
+  | ["render", ip, l] =>
+    match addr ip, l.toNat? with
+    | some ip, some l =>
+      let n := Net.newShort ip l
+      let s := renderCidr n.id n.mask.countOnes
+      (t, s!"{strHex s} {showCidr s}")
+    | _, _ => bad
+  | _ => bad
+
+def dispatch (sub : String) (i o : IO.FS.Stream) : Option (IO Unit) :=
+  if sub == "c09" || sub.startsWith "c09-" then some (Driver.loop i o step []) else none
 
 end Driver.C09
